@@ -141,3 +141,24 @@ func debugTerm(r *core.Run) {
 		}
 	}
 }
+
+func init() { Registry["X-ifs"] = debugIfs }
+
+func debugIfs(r *core.Run) {
+	p := load(r, core.LoadOpts{})
+	fn := p.Func(os.Getenv("GCV_FN"))
+	if fn == nil {
+		fmt.Println("no such function")
+		return
+	}
+	for _, b := range fn.Blocks {
+		if iff, ok := b.Instrs[len(b.Instrs)-1].(*ssa.If); ok {
+			x, y, rel, ok := an.CondCmp(iff.Cond)
+			if ok {
+				fmt.Printf("%s  b%d: [%s] %s [%s]\n", p.Pos(iff.Pos()), b.Index, an.AtomList(an.Atoms(x)), rel, an.AtomList(an.Atoms(y)))
+			} else {
+				fmt.Printf("%s  b%d: bool [%s]\n", p.Pos(iff.Pos()), b.Index, an.AtomList(an.Atoms(iff.Cond)))
+			}
+		}
+	}
+}
